@@ -183,6 +183,9 @@ pub struct Ctx<'a> {
     /// set when the call log is not determined (e.g. a failing ?: condition)
     pub log_unspecified: bool,
     pub depth: u32,
+    /// C08 only: `.f` on a bound value that is not a map counts as an absent field (the
+    /// configuration "intermediate not a map" of that property); elsewhere it is not asserted
+    pub nonmap_field_absent: bool,
 }
 
 fn join_fail(a: FailClass, b: FailClass) -> FailClass {
@@ -206,6 +209,7 @@ impl<'a> Ctx<'a> {
             log: Vec::new(),
             log_unspecified: false,
             depth: 0,
+            nonmap_field_absent: false,
         }
     }
 
@@ -400,7 +404,15 @@ impl<'a> Ctx<'a> {
                         }
                     }
                 },
-                Out::Val(_) => Out::Unspec, // field access on a non-map
+                // field access on a non-map
+                Out::Val(v) => {
+                    let plain = matches!(v, V::Int(_) | V::UInt(_) | V::F(_) | V::Bool(_) | V::Str(_) | V::Bytes(_) | V::List(_) | V::Null);
+                    if self.nonmap_field_absent && plain && !is_builtin_name(f) {
+                        Out::Fail(FailClass::Absent)
+                    } else {
+                        Out::Unspec
+                    }
+                }
                 o => o,
             },
             E::Call(f, args) => self.call(f, args, scope),
